@@ -62,6 +62,8 @@ Record ctx_table := {
   ct_valid_all : bexp;                           (* register_is_valid, validity All (the `else` branch) *)
   ct_valid_default : bexp;                       (* register_is_valid, Some(which): the `_` arm / the trait default's Some branch *)
   ct_get_cond : bexp;                            (* get_register: the condition under which it reads *)
+  (* format_register: format!("<prefix>{:[0]1$x}", get_register_always(reg), size_of::<Register>() * <mul>) *)
+  ct_fmt_prefix : name; ct_fmt_zero : bool; ct_fmt_mul : Z;
   ct_sp_name : name;                           (* stack_pointer_register_name() *)
   ct_ip_name : name;                           (* instruction_pointer_register_name() *)
   ct_sp_acc : aexp;                              (* MinidumpContext::get_stack_pointer arm (whole body) *)
